@@ -1353,3 +1353,45 @@ def c01_10(ctx: Ctx):
                                   key=f"{q}::contents-store")
     if n < 3:
         raise AnalysisError(f"only {n} stores to `.contents` found")
+
+
+@rule("C01.11", ["C01", "C10", "C02"], "a partial deletion never removes the original block object: only the middle block that split_block created leaves the interval", 1)
+def c01_11(ctx: Ctx):
+    fi = ctx.repo.func("_modify.edit.delete")
+    fn = fi.node
+    lin = linear(fn)
+    params = [a.arg for a in fn.args.args]
+    if "block" not in params:
+        raise AnalysisError("delete(): parameter `block` not found")
+    # flow-insensitive may-alias of names with the parameter `block`.  split_block(cache, Y, off) returns (Y itself, a fresh tail, flag).
+    alias: Dict[str, bool] = {"block": True}
+    changed = True
+    while changed:
+        changed = False
+        for st in walk_no_nested(fn):
+            if not isinstance(st, ast.Assign) or len(st.targets) != 1:
+                continue
+            t, v = st.targets[0], st.value
+            if isinstance(t, ast.Name) and isinstance(v, ast.Name) and alias.get(v.id) and not alias.get(t.id):
+                alias[t.id] = True
+                changed = True
+            if isinstance(t, ast.Tuple) and isinstance(v, ast.Call) and src(v.func) == "split_block" and len(v.args) >= 2 and isinstance(v.args[1], ast.Name) and t.elts and isinstance(t.elts[0], ast.Name):
+                if alias.get(v.args[1].id) and not alias.get(t.elts[0].id):
+                    alias[t.elts[0].id] = True
+                    changed = True
+    rems = [(g, c) for g, c in lin.all_calls() if src(c.func) == "remove_block" and len(c.args) >= 2 and isinstance(c.args[1], ast.Name)]
+    partial = []
+    for g, c in rems:
+        try:
+            if lin.under(g, "length != block.size"):
+                partial.append((g, c))
+        except Exception:
+            pass
+    if not partial:
+        raise AnalysisError("delete(): remove_block call of the partial-deletion branch not found")
+    for g, c in partial:
+        x = c.args[1].id
+        ctx.check(not alias.get(x), fi, c, f"partial deletion removes `{x}`, a block created by split_block",
+                  f"`{x}` can be the very block object the caller passed in (it reaches here as the head that split_block returns unchanged): remove_block treats it as a block that disappears - "
+                  "its alignment entry is dropped, its symbols, entry-point and CFI rows are re-homed by the deletion rules - although part of its bytes survive in a new, unaligned block",
+                  key="delete::partial-removes-fresh-block")
